@@ -12,6 +12,9 @@ RULE = ('(i) glob matcher: pattern x hostmask pairs, exhaustive up to length 3 (
         'model step from a snapshot of the real state (so set-iteration order is an input) and the resulting state/return value '
         'diffed; direct oracle after every lookup: recognised only through own mask or live login, never two accounts, equals the '
         'cache-free recomputation; after every accepted setUser: no two accounts own masks matching one hostmask of the pool. '
+        'plus directed histories in which a cached answer goes stale without invalidateCache (a login expires and another '
+        'sender\'s cache miss / another account\'s setUser purges it from user.auth; the Multiple-matches branch strips masks) followed '
+        'by the lookup of the cached sender; '
         '(iii) command layer: the histories interleave real User plugin commands (hostmask add/remove, identify, unidentify, changename, '
         'register) sent as private messages through a live bot (Owner, Misc, Config, User loaded) with the API operations; every command '
         '(and user set secure on/off/toggle from matching, foreign, identified and unidentified hostmasks) is one step of the model (run_cmd) from a snapshot of the real state, with passwords / owner flag / syntax checks observed from '
@@ -376,6 +379,44 @@ def gen_history(rng):
     return {'timeout': timeout, 'ops': ops}
 
 
+def gen_stale(rng):
+    """histories in which a cached answer goes stale WITHOUT invalidateCache: (1) a login expires and something else than the
+    expired sender's own lookup purges it from user.auth; (2) the Multiple-matches branch strips masks.  Followed by the
+    lookup of the sender that was cached, and a random tail"""
+    route = rng.choice([1, 1, 2])
+    if route == 1:
+        h = rng.choice(HOSTS)
+        own = rng.choice([m for m in MASKS if not ref_match(m, h)])
+        ops = [['new'], ['new'], ['set', 1, ['u1', [own] if rng.random() < 0.7 else [], None, False]]]
+        ops.append(['auth', 1, h] if rng.random() < 0.5 else ['cmd', h, ['identify', 'u1', '', PASSWORD]])
+        ops += [['lookup', h], ['tick', rng.choice([11, 30])]]
+        other = rng.choice([x for x in HOSTS if x != h])
+        purge = rng.choice(['lookup', 'lookup', 'set', 'cmd'])
+        if purge == 'lookup':
+            ops.append(['lookup', other])
+        elif purge == 'set':
+            ops.append(['set', 2, ['u2', [rng.choice(MASKS)], None, False]])
+        else:
+            ops.append(['cmd', other, ['register', 'fresh', '', PASSWORD]])
+        ops += [['lookup', h]] * rng.choice([1, 2])
+        timeout = 10
+    else:
+        m1, m2 = rng.choice([('a*!*@*', '*b!*@*'), ('A*!*@*', '?b!x@y'), ('*!x@*', 'ab!*@y'), ('*!*@host', 'nick!user@host')])
+        both = [x for x in HOSTS if ref_match(m1, x) and ref_match(m2, x)]
+        only1 = [x for x in HOSTS + ['a!a@host', 'aq!x@q', 'q!x@q', 'a!q@host'] if ref_match(m1, x) and not ref_match(m2, x)]
+        ops = [['new'], ['new'], ['set', 1, ['u1', [m1], None, False]]]
+        if only1:
+            ops.append(['lookup', rng.choice(only1)])
+        ops.append(['set', 2, ['u2', [m2], None, False]])
+        if both:
+            ops.append(['lookup', rng.choice(both)])
+        if only1:
+            ops += [['lookup', x] for x in rng.sample(only1, min(2, len(only1)))]
+        timeout = rng.choice([0, 10])
+    tail = gen_history(rng)['ops'][:rng.randint(0, 8)]
+    return {'timeout': timeout, 'ops': ops + [o for o in tail if o[0] != 'new']}
+
+
 def gen_cmd(rng, known):
     kind = rng.choice(['add', 'add', 'add', 'remove', 'identify', 'identify', 'unidentify', 'changename', 'register', 'secure', 'secure'])
     name = ('u%d' % rng.choice(known)) if known and rng.random() < 0.9 else rng.choice(NAMES)
@@ -551,7 +592,11 @@ def _overlapping_globs(inp):
     """F6: setUser's overlap test is literal.  An account was given a glob mask that has a common match with a glob mask
     of another account, or that matches a hostmask another account is logged in from (neither is equal as a string)"""
     hist = inp.get('history')
-    if not hist or inp.get('kind') in ('refused-with-trace', 'secure-without-mask', 'secure-set-from-foreign'):
+    # F6 explains exactly two things: two accounts owning masks with a common match, and a lookup answering one of two
+    # recognisers.  An answer that no recomputation finds, a missed unique recogniser, a secure account without a matching mask
+    # or a refused command with a trace hold in EVERY state (C04_recognised_only, C04_recomputed_is_answered,
+    # C04_secure_needs_mask, C04_refused_command_no_trace): never attributed to F6, however the history looks
+    if not hist or inp.get('kind') not in ('overlapping-masks', 'two-accounts'):
         return False
     upto = hist['ops'][:inp['step'] + 1]
     # masks given by setUser through the API or by an accepted `hostmask add`
@@ -590,6 +635,17 @@ CORPUS = [
     {'timeout': 10, 'ops': [['new'], ['set', 1, ['u1', ['zz!zz@zz'], None, False]], ['auth', 1, 'ab!x@y'], ['lookup', 'ab!x@y'],
                             ['tick', 8], ['auth', 1, 'q!q@q'], ['lookup', 'q!q@q'], ['lookup', 'ab!x@y'], ['tick', 5], ['lookup', 'ab!x@y'],
                             ['lookup', 'q!q@q']]},
+    # stale cache behind a purge: the login expires and ANOTHER sender's cache miss drops it from user.auth before the
+    # expired sender comes back (the re-check of the cached id must not depend on user.auth being non-empty)
+    {'timeout': 10, 'ops': [['new'], ['set', 1, ['u1', ['zz!zz@zz'], None, False]], ['auth', 1, 'ab!x@y'], ['lookup', 'ab!x@y'],
+                            ['tick', 30], ['lookup', 'q!q@q'], ['lookup', 'ab!x@y'], ['lookup', 'ab!x@y']]},
+    # the same, the purge done by the overlap loops of another account's setUser
+    {'timeout': 10, 'ops': [['new'], ['new'], ['set', 1, ['u1', ['zz!zz@zz'], None, False]], ['cmd', 'ab!x@y', ['identify', 'u1', '', 'secret']],
+                            ['lookup', 'ab!x@y'], ['tick', 11], ['set', 2, ['u2', ['cb!x@y'], None, False]], ['lookup', 'ab!x@y']]},
+    # stale cache behind the ambiguity repair: a sender matching the masks of two accounts strips both masks without
+    # touching the cache; a sender cached for one of them earlier must not be answered from it
+    {'timeout': 0, 'ops': [['new'], ['new'], ['set', 1, ['u1', ['a*!*@*'], None, False]], ['lookup', 'a!a@host'],
+                           ['set', 2, ['u2', ['*b!*@*'], None, False]], ['lookup', 'ab!x@y'], ['lookup', 'a!a@host'], ['lookup', 'cb!x@y']]},
     # user set secure from a hostmask that is only identified, not matched by a registered mask: must be refused
     {'timeout': 0, 'ops': [['new'], ['set', 1, ['u1', ['zz!zz@zz'], None, False]], ['cmd', 'q!q@q', ['identify', 'u1', '', 'secret']],
                            ['cmd', 'q!q@q', ['secure', '', 'True', 'secret']], ['lookup', 'q!q@q'], ['lookup', 'zz!zz@zz']]},
@@ -646,7 +702,8 @@ def run(ctx):
         if ir != ref_match(p, h):
             ctx.fail(inp, 'hostmaskPatternEqual(%r, %r) = %r but IRC glob/case rules say %r' % (p, h, ir, not ir))
     # (ii) state machine
-    hists = [(h, 'corpus') for h in CORPUS] + [(gen_history(rng), 'history') for _ in range(ctx.n(400))]
+    hists = ([(h, 'corpus') for h in CORPUS] + [(gen_history(rng), 'history') for _ in range(ctx.n(400))]
+             + [(gen_stale(rng), 'stale') for _ in range(ctx.n(60))])
     for hist, kind in hists:
         for f in run_history(ctx, mods, hist, kind=kind):
             inp = {'history': hist, 'step': f['step'], 'h': f['h'], 'kind': f['kind']}
